@@ -50,6 +50,14 @@ PropPcaRef(nn, ncmp, bTc, bTp, curTotal, ev) ==
   ev.k <= ncmp => /\ ev.dist <= SatAdd(bTc[ev.k], bTp[ev.k])
                   /\ Abs(ev.varexp - curTotal) <= TolEig(nn, ev.varexp)
 
+(* magnitude equivariance (scaling 0): CPCA(c X) against CPCA(X) for c a power of two.  Both runs are within the criterion-implied bound *)
+(* of the same truth (super scores), explained variances do not depend on the unit of the data                                        *)
+PropScale(nn, sig, ncmp, bT, ev) ==
+  /\ Len(ev.terr) = Len(ev.verr) /\ Len(ev.berr) = Len(ev.terr)
+  /\ \A i \in 1..Min2(ncmp, Len(ev.terr)) : /\ ev.terr[i] <= 2 * bT[i]
+                                            /\ ev.verr[i] <= 2 * EvTolC9(nn, sig[i], Len(sig))
+                                            /\ ev.berr[i] <= SatAdd(4 * Min2(bT[i], 200000000), BlockTol)
+
 (* ------------------------------------------------------------------------------------------ Model (M) *)
 VARIABLES cn, nb, cnpc, ck, prevBlock, share, lastTotal, sumTotal, curTotal, cphase,   \* ledger state
           left, cok                                                                    \* model only
